@@ -155,6 +155,7 @@ class Project:
                 tree = ast.parse(src, filename=str(path))
             except SyntaxError as e:
                 raise AnalysisError(f'{rel}: does not parse: {e}') from e
+            normalise_test_temporaries(tree)
             self.modules[name] = Module(name, path, str(rel), src, tree, is_pkg)
 
     def digest(self) -> str:
@@ -419,3 +420,62 @@ def const_eval(val: ast.expr):
             and len(val.args) <= 1:
         return _CONST_CTORS[val.func.id](*[const_eval(x) for x in val.args])
     raise ValueError('not a constant display')
+
+
+def normalise_test_temporaries(tree: ast.Module) -> int:
+    """IR normalisation applied to every module before any rule runs: a local that is bound exactly once, by the statement
+    directly before an `if`, and read exactly once, as that `if`'s test (or under `not`), is replaced by its expression:
+
+        ok = a and b            if a and b:
+        if ok:           ->         ...
+            ...
+
+    Evaluation order and values are unchanged (the binding is adjacent and single-use), so every rule sees the same program
+    whether or not a developer named the condition."""
+    n_done = 0
+    for fn in [n for n in ast.walk(tree) if isinstance(n, (ast.FunctionDef, ast.AsyncFunctionDef))]:
+        stores: dict[str, int] = {}
+        loads: dict[str, int] = {}
+        for x in ast.walk(fn):
+            if isinstance(x, ast.Name):
+                d = stores if isinstance(x.ctx, (ast.Store, ast.Del)) else loads
+                d[x.id] = d.get(x.id, 0) + 1
+            elif isinstance(x, (ast.Global, ast.Nonlocal)):
+                for nm in x.names:
+                    stores[nm] = stores.get(nm, 0) + 2
+        params = {a.arg for a in ast.walk(fn.args) if isinstance(a, ast.arg)}
+
+        def do_block(block: list) -> None:
+            nonlocal n_done
+            i = 0
+            while i < len(block):
+                s = block[i]
+                if i + 1 < len(block) and isinstance(s, ast.Assign) and len(s.targets) == 1 and isinstance(s.targets[0], ast.Name) \
+                        and isinstance(block[i + 1], ast.If):
+                    nm = s.targets[0].id
+                    nxt = block[i + 1]
+                    t = nxt.test
+                    holder = None
+                    if isinstance(t, ast.Name) and t.id == nm:
+                        holder = 'direct'
+                    elif isinstance(t, ast.UnaryOp) and isinstance(t.op, ast.Not) and isinstance(t.operand, ast.Name) and t.operand.id == nm:
+                        holder = 'not'
+                    if holder and stores.get(nm) == 1 and loads.get(nm) == 1 and nm not in params:
+                        if holder == 'direct':
+                            nxt.test = s.value
+                        else:
+                            t.operand = s.value
+                        del block[i]
+                        n_done += 1
+                        continue
+                for fld in ('body', 'orelse', 'finalbody'):
+                    b = getattr(s, fld, None)
+                    if isinstance(b, list) and b and isinstance(b[0], ast.stmt) and not isinstance(s, (ast.FunctionDef, ast.AsyncFunctionDef, ast.ClassDef)):
+                        do_block(b)
+                for h in getattr(s, 'handlers', []) or []:
+                    do_block(h.body)
+                for c in getattr(s, 'cases', []) or []:
+                    do_block(c.body)
+                i += 1
+        do_block(fn.body)
+    return n_done
